@@ -412,6 +412,7 @@ def Safe (s : State) : Op → Prop
   | .migrate v _ _ => ∀ p ∈ s.pending, p.v ≠ v
   | .vmResize v _ _ => ∀ p ∈ s.pending, p.v ≠ v
   | .vmRemove v _ _ => ∀ p ∈ s.pending, p.v ≠ v
+  | .vmResizeStale _ v _ _ => ∀ p ∈ s.pending, p.v ≠ v
   | _ => True
 
 theorem metaOK_frame {s s' : State} (h : MetaOK s) (hv : s'.vols = s.vols) (hm : s'.m = s.m) (h1 : s'.c1 = s.c1)
@@ -1467,6 +1468,76 @@ theorem vmRemove_ok {s : State} (h : MetaOK s) (v : Nat) (force : Bool) (moves :
       exact hs p hp
   · exact h2
 
+/-! ### Sync in two phases, resize from a stale total -/
+
+theorem syncBegin_ok {s : State} (h : MetaOK s) : MetaOK (syncBegin s).1 := by
+  simp only [syncBegin]; split
+  · exact h
+  · exact metaOK_frame h rfl rfl rfl rfl rfl rfl (fun _ hx => hx)
+
+theorem syncEnd_ok {s : State} (h : MetaOK s) : MetaOK (syncEnd s).1 := by
+  simp only [syncEnd]; split
+  · split
+    · exact metaOK_frame h rfl rfl rfl rfl rfl rfl (fun _ hx => hx)
+    · exact h
+  · exact h
+
+theorem syncFsync_ok (f : Facts) {s : State} (h : MetaOK s) (v : Nat) : MetaOK (syncFsync f s v).1 := by
+  simp only [syncFsync]; split
+  · exact h
+  split
+  · split
+    · exact metaOK_skel h (syncVol_skel v s.vols) rfl rfl rfl rfl (fun _ hp => hp) h.pendR (fun _ hx => hx)
+    · exact h
+  · split
+    · exact metaOK_skel h (syncVol_skel v s.vols) rfl rfl rfl rfl (fun _ hp => hp) h.pendR (fun _ hx => hx)
+    · exact h
+
+theorem syncClear_ok (f : Facts) {s : State} (h : MetaOK s) (v : Nat) : MetaOK (syncClear f s v).1 := by
+  simp only [syncClear]; split
+  · exact h
+  split
+  · split
+    · exact metaOK_frame h rfl rfl rfl rfl rfl rfl (fun _ hx => hx)
+    · exact h
+  · split
+    · exact metaOK_frame h rfl rfl rfl rfl rfl rfl (fun _ hx => hx)
+    · exact h
+
+theorem truncSlots_secs (cut n : Nat) (l : List Slot) (k : Nat) : (truncSlots cut n l k).map (·.sec) = l.map (·.sec) := by
+  induction l generalizing k with
+  | nil => rfl
+  | cons x xs ih =>
+    simp only [truncSlots, List.map_cons, ih]
+    split <;> rfl
+
+theorem truncFile_skel (v cut n : Nat) (vs : List Volume) : (truncFile v cut n vs).map skel = vs.map skel := by
+  apply updVol_skel
+  intro x
+  simp only [skel, truncSlots_secs]
+
+theorem vmResizeStale_ok (f : Facts) {s : State} (h : MetaOK s) (cur v n : Nat) (moves : List Move)
+    (hs : ∀ p ∈ s.pending, p.v ≠ v) : MetaOK (vmResizeStale f s cur v n moves).1 := by
+  simp only [vmResizeStale]
+  split
+  · exact h
+  rename_i vol hv
+  split
+  · exact vmResize_ok h v n moves hs
+  split
+  · have h1 : MetaOK (if min (cur + resizeBatch) n < vol.total then { s with vols := truncFile v (min (cur + resizeBatch) n) n s.vols } else s) := by
+      split
+      · exact metaOK_skel h (truncFile_skel _ _ _ _) rfl rfl rfl rfl (fun _ hp => hp) h.pendR (fun _ hx => hx)
+      · exact h
+    split
+    · exact grow_ok h1 v n
+    · exact h1
+  split
+  · split
+    · exact h
+    · exact vmResize_ok h v n moves hs
+  · exact h
+
 /-! ## every step preserves the invariant -/
 
 theorem step_ok (f : Facts) {s : State} (h : MetaOK s) (op : Op) (hs : Safe s op) : MetaOK (step f s op).1 := by
@@ -1504,6 +1575,11 @@ theorem step_ok (f : Facts) {s : State} (h : MetaOK s) (op : Op) (hs : Safe s op
   | vmAddVolume id n => exact vmAddVolume_ok h id n
   | vmResize v n moves => exact vmResize_ok h v n moves hs
   | vmRemove v force moves => exact vmRemove_ok h v force moves hs
+  | syncBegin => exact syncBegin_ok h
+  | syncFsync v => exact syncFsync_ok f h v
+  | syncClear v => exact syncClear_ok f h v
+  | syncEnd => exact syncEnd_ok h
+  | vmResizeStale cur v n moves => exact vmResizeStale_ok f h cur v n moves hs
 
 /-- every step of the history respects `Safe` in the state it is executed in -/
 def SafeRun (f : Facts) : State → List Op → Prop
@@ -2159,6 +2235,37 @@ theorem C08_no_negative_stat (f : Facts) {s : State} (h : MetaOK s) (op : Op) (h
   | vmAddVolume id n => exact vmAddVolume_nopanic id n hp
   | vmResize v n moves => exact vmResize_nopanic h v n moves hs hp
   | vmRemove v force moves => exact (vmRemove_nopanic h v force moves hs hp).elim
+  | syncBegin => simp only [step, syncBegin] at hp; split at hp <;> simp at hp
+  | syncFsync v =>
+    simp only [step, syncFsync] at hp
+    split at hp
+    · simp at hp
+    · split at hp <;> split at hp <;> simp at hp
+  | syncClear v =>
+    simp only [step, syncClear] at hp
+    split at hp
+    · simp at hp
+    · split at hp <;> split at hp <;> simp at hp
+  | syncEnd =>
+    simp only [step, syncEnd] at hp
+    split at hp
+    · split at hp <;> simp at hp
+    · simp at hp
+  | vmResizeStale cur v n moves =>
+    simp only [step, vmResizeStale] at hp
+    split at hp
+    · simp at hp
+    split at hp
+    · exact vmResize_nopanic h v n moves hs hp
+    split at hp
+    · split at hp
+      · exact grow_nopanic v n hp
+      · simp at hp
+    split at hp
+    · split at hp
+      · simp at hp; exact Or.inr (Or.inl hp.symm)
+      · exact vmResize_nopanic h v n moves hs hp
+    · simp at hp
 
 
 /-! ## the repaired tree (`stepF`) -/
